@@ -626,12 +626,12 @@ Proof.
   - destruct s as [|b [|b1 [|b2 [|b3 [|b4 r']]]]]; try reflexivity.
     rewrite run_cons5.
     assert (L1 : forall p m, length (run enc ip p m (b1 :: b2 :: b3 :: b4 :: r')) = S (S (S (S (length r'))))).
-    { intros p m. rewrite IH by (simpl in *; lia). reflexivity. }
+    { intros p m. rewrite IH by (cbn [length] in *; lia). reflexivity. }
     destruct (is_branch b); [|cbn [length]; rewrite L1; reflexivity].
     destruct (skip_cond mask b1 b2 b3); [cbn [length]; rewrite L1; reflexivity|].
     destruct (test86 b4); [|cbn [length]; rewrite L1; reflexivity].
     destruct (conv enc (curw ip pos) mask b1 b2 b3 b4) as [[[c1 c2] c3] c4].
-    cbn [length]. rewrite IH by (simpl in *; lia). reflexivity.
+    cbn [length]. rewrite IH by (cbn [length] in *; lia). reflexivity.
 Qed.
 
 Lemma run_len enc ip pos mask s : length (run enc ip pos mask s) = length s.
@@ -753,3 +753,428 @@ Proof.
   rewrite skip_cond_4 in SK. rewrite SK.
   apply (conv_protect (curw ip pos) 4 b1 b2 b3 b4 c1 c2 c3 c4); auto using curw_bound.
 Qed.
+
+Lemma nmask_range m : 0 <= m <= 7 -> 4 <= nmask m <= 7.
+Proof.
+  intros H. destruct (mask_cases m H) as [-> | [-> | [-> | [-> | [-> | [-> | [-> | ->]]]]]]];
+    vm_compute; split; discriminate.
+Qed.
+
+Lemma shr1_range m : 0 <= m <= 7 -> 0 <= Z.shiftr m 1 <= 7.
+Proof.
+  intros H. destruct (mask_cases m H) as [-> | [-> | [-> | [-> | [-> | [-> | [-> | ->]]]]]]];
+    vm_compute; split; discriminate.
+Qed.
+
+(* the decoder, looking at what the encoder's further run leaves behind an
+   unconverted opcode, takes the decisions the encoder took *)
+Lemma skip_cond_after ip pos' mask b1 b2 b3 b4 r' :
+  0 <= mask <= 7 -> bytes_ok (b1 :: b2 :: b3 :: b4 :: r') = true ->
+  let R := run true ip pos' (nmask mask) (b1 :: b2 :: b3 :: b4 :: r') in
+  skip_cond mask (nth 0 R 0) (nth 1 R 0) (nth 2 R 0) = skip_cond mask b1 b2 b3 /\
+  test86 (nth 3 R 0) = test86 b4.
+Proof.
+  intros Hm Hok R. split.
+  - destruct (mask_cases mask Hm) as [-> | [-> | [-> | [-> | [-> | [-> | [-> | ->]]]]]]];
+      try reflexivity.
+    + rewrite !skip_cond_1. unfold R. rewrite run_head. reflexivity.
+    + rewrite !skip_cond_2. unfold R. rewrite F2_0; [reflexivity|exact Hok|vm_compute; auto].
+    + rewrite !skip_cond_4. unfold R. rewrite F2_1; [reflexivity|exact Hok|vm_compute; auto].
+  - unfold R. rewrite F2_2; [reflexivity|exact Hok|].
+    pose proof (nmask_range mask Hm). lia.
+Qed.
+
+Lemma skip_cond_false_inv mask b1 b2 b3 : 0 <= mask <= 7 ->
+  skip_cond mask b1 b2 b3 = false ->
+  mask_conv mask /\ (mask <> 0 -> test86 (prot mask b1 b2 b3) = false).
+Proof.
+  intros Hm SK. unfold mask_conv.
+  destruct (mask_cases mask Hm) as [-> | [-> | [-> | [-> | [-> | [-> | [-> | ->]]]]]]];
+    try discriminate SK; split; auto; intros Hn; try exact SK; contradiction.
+Qed.
+
+Lemma skip_cond_conv mask c1 c2 c3 : mask_conv mask ->
+  (mask <> 0 -> test86 (prot mask c1 c2 c3) = false) -> skip_cond mask c1 c2 c3 = false.
+Proof.
+  intros [-> | [-> | [-> | ->]]] H; try reflexivity; apply H; discriminate.
+Qed.
+
+(* lock-step simulation: the decoder run on the encoder's output restores the input *)
+Lemma run_roundtrip_n ip : forall n s, (length s <= n)%nat -> forall pos mask,
+  0 <= mask <= 7 -> bytes_ok s = true ->
+  run false ip pos mask (run true ip pos mask s) = s.
+Proof.
+  induction n as [|n IH]; intros s Hn pos mask Hm Hok.
+  - destruct s; [reflexivity | cbn [length] in Hn; lia].
+  - destruct s as [|b [|b1 [|b2 [|b3 [|b4 r']]]]]; try reflexivity.
+    ok5 Hok.
+    assert (Hr : bytes_ok (b1 :: b2 :: b3 :: b4 :: r') = true).
+    { apply bytes_ok_cons_inv in Hok as [_ Hok]. exact Hok. }
+    assert (Ln : (length (b1 :: b2 :: b3 :: b4 :: r') <= n)%nat) by (cbn [length] in *; lia).
+    assert (Ln' : (length r' <= n)%nat) by (cbn [length] in *; lia).
+    pose proof (nmask_range mask Hm) as Hnm.
+    pose proof (shr1_range mask Hm) as Hsm.
+    rewrite run_cons5.
+    set (r := b1 :: b2 :: b3 :: b4 :: r') in *.
+    assert (L4 : forall p m, (4 <= length (run true ip p m r))%nat).
+    { intros p m. rewrite run_len. unfold r. cbn [length]. lia. }
+    destruct (is_branch b) eqn:OP.
+    2:{ rewrite run_unfold by apply L4. rewrite OP. f_equal. apply IH; auto. }
+    destruct (skip_cond_after ip (pos + 1) mask b1 b2 b3 b4 r' Hm Hr) as [SA TA].
+    fold r in SA, TA.
+    destruct (skip_cond mask b1 b2 b3) eqn:SK.
+    { rewrite run_unfold by apply L4. rewrite OP, SA. f_equal. apply IH; auto; lia. }
+    destruct (test86 b4) eqn:T4.
+    2:{ rewrite run_unfold by apply L4. rewrite OP, SA, TA. f_equal. apply IH; auto; lia. }
+    (* the operand is converted *)
+    destruct (skip_cond_false_inv mask b1 b2 b3 Hm SK) as [Hmc Hp].
+    pose proof (conv_inverse (curw ip pos) mask b1 b2 b3 b4 Hb1 Hb2 Hb3 Hb4 T4 Hmc Hp) as CI.
+    destruct (conv true (curw ip pos) mask b1 b2 b3 b4) as [[[c1 c2] c3] c4] eqn:E.
+    destruct (conv_bytes _ _ _ _ _ _ _ _ _ _ _ Hb1 Hb2 Hb3 Hb4 Hmc E) as (C1 & C2 & C3 & C4 & TC).
+    rewrite run_cons5. rewrite OP.
+    assert (SC : skip_cond mask c1 c2 c3 = false).
+    { apply skip_cond_conv; [exact Hmc|]. intros Hn0.
+      apply (conv_protect (curw ip pos) mask b1 b2 b3 b4 c1 c2 c3 c4); auto using curw_bound.
+      destruct Hmc as [? | ?]; [contradiction | assumption]. }
+    rewrite SC, TC, CI. unfold r. do 5 f_equal. apply IH; auto; lia.
+Qed.
+
+Theorem run_roundtrip ip pos mask s : 0 <= mask <= 7 -> bytes_ok s = true ->
+  run false ip pos mask (run true ip pos mask s) = s.
+Proof. intros. apply (run_roundtrip_n ip (length s)); auto. Qed.
+
+(* ------------------------------------------------------------------ *)
+(* 4. the array/fuel model of Model/Bcj.v computes [run]               *)
+(* ------------------------------------------------------------------ *)
+
+Lemma index_nth (s : bytes) k : (k < length s)%nat -> index (Z.of_nat k) s = nth_error s k.
+Proof.
+  intros H. unfold index, zlen.
+  replace ((0 <=? Z.of_nat k) && (Z.of_nat k <? Z.of_nat (length s))) with true by lia.
+  rewrite Nat2Z.id. reflexivity.
+Qed.
+
+Lemma index_app (done s : bytes) k : (k < length s)%nat ->
+  index (zlen done + Z.of_nat k) (done ++ s) = nth_error s k.
+Proof.
+  intros H. unfold index, zlen. rewrite app_length.
+  replace ((0 <=? Z.of_nat (length done) + Z.of_nat k) &&
+           (Z.of_nat (length done) + Z.of_nat k <? Z.of_nat (length done + length s))) with true by lia.
+  replace (Z.to_nat (Z.of_nat (length done) + Z.of_nat k)) with (length done + k)%nat by lia.
+  rewrite nth_error_app2 by lia. f_equal. lia.
+Qed.
+
+(* number of bytes the inner for-loop steps over *)
+Fixpoint nskip (s : bytes) : nat :=
+  match s with
+  | b :: r => if (4 <=? length r)%nat && negb (is_branch b) then S (nskip r) else O
+  | [] => O
+  end.
+
+Lemma scan_nskip : forall s done sfuel size, (length s < sfuel)%nat ->
+  size = zlen (done ++ s) - 4 ->
+  scan sfuel (done ++ s) (zlen done) size = Ok (zlen done + Z.of_nat (nskip s)).
+Proof.
+  induction s as [|b r IH]; intros done sfuel size Hf Hs.
+  - destruct sfuel as [|f]; [cbn [length] in Hf; lia|]. cbn [scan nskip].
+    rewrite app_nil_r in Hs. replace (zlen done <? size) with false by lia.
+    f_equal. lia.
+  - destruct sfuel as [|f]; [cbn [length] in Hf; lia|]. cbn [scan nskip].
+    rewrite zlen_app, zlen_cons in Hs. unfold zlen in Hs.
+    destruct (4 <=? length r)%nat eqn:L4.
+    + apply Nat.leb_le in L4.
+      replace (zlen done <? size) with true by (unfold zlen; lia).
+      replace (zlen done) with (zlen done + Z.of_nat 0) at 1 by lia.
+      rewrite index_app by (cbn [length]; lia). cbn [nth_error of_opt bind].
+      destruct (is_branch b) eqn:OP; cbn [negb andb].
+      * f_equal. lia.
+      * replace (done ++ b :: r) with ((done ++ [b]) ++ r) by (rewrite <- app_assoc; reflexivity).
+        replace (zlen done + 1) with (zlen (done ++ [b])) by (rewrite zlen_app; reflexivity).
+        rewrite IH.
+        -- f_equal. rewrite zlen_app. change (zlen [b]) with 1. lia.
+        -- cbn [length] in Hf. lia.
+        -- rewrite !zlen_app. change (zlen [b]) with 1. unfold zlen. lia.
+    + apply Nat.leb_gt in L4. cbn [andb].
+      replace (zlen done <? size) with false by (unfold zlen; lia).
+      f_equal. lia.
+Qed.
+
+Fixpoint shr_n (d : nat) (mask : Z) : Z :=
+  match d with O => mask | S k => shr_n k (Z.shiftr mask 1) end.
+
+Lemma shr_n_S d mask : shr_n (S d) mask = shr_n d (Z.shiftr mask 1).
+Proof. reflexivity. Qed.
+
+Lemma shr_n_0 d : shr_n d 0 = 0.
+Proof. induction d as [|d IH]; [reflexivity|]. rewrite shr_n_S. exact IH. Qed.
+
+Lemma shr_n_spec d mask : 0 <= mask <= 7 ->
+  shr_n d mask = if 2 <? Z.of_nat d then 0 else Z.shiftr mask (Z.of_nat d).
+Proof.
+  intros Hm.
+  destruct d as [|[|[|d]]].
+  - reflexivity.
+  - reflexivity.
+  - destruct (mask_cases mask Hm) as [-> | [-> | [-> | [-> | [-> | [-> | [-> | ->]]]]]]]; reflexivity.
+  - replace (2 <? Z.of_nat (S (S (S d)))) with true by lia.
+    rewrite !shr_n_S.
+    destruct (mask_cases mask Hm) as [-> | [-> | [-> | [-> | [-> | [-> | [-> | ->]]]]]]];
+      apply shr_n_0.
+Qed.
+
+Lemma shr_n_range d mask : 0 <= mask <= 7 -> 0 <= shr_n d mask <= 7.
+Proof.
+  revert mask. induction d as [|d IH]; intros mask Hm; [exact Hm|].
+  rewrite shr_n_S. apply IH. apply shr1_range. exact Hm.
+Qed.
+
+(* the stepped-over bytes are copied, the mask is shifted once per byte, and
+   what follows is either too short to hold an opcode or starts with one *)
+Lemma nskip_split enc ip : forall s, exists pre s',
+  s = pre ++ s' /\ length pre = nskip s /\
+  (forall pos mask, run enc ip pos mask s =
+     pre ++ run enc ip (pos + zlen pre) (shr_n (length pre) mask) s') /\
+  ((length s' < 5)%nat \/
+   exists b b1 b2 b3 b4 r', s' = b :: b1 :: b2 :: b3 :: b4 :: r' /\ is_branch b = true).
+Proof.
+  induction s as [|b r IH].
+  - exists [], []. split; [reflexivity|]. split; [reflexivity|]. split.
+    + intros. reflexivity.
+    + left. cbn [length]. lia.
+  - cbn [nskip].
+    destruct (4 <=? length r)%nat eqn:L4; [apply Nat.leb_le in L4 | apply Nat.leb_gt in L4].
+    + destruct (is_branch b) eqn:OP; cbn [negb andb].
+      * exists [], (b :: r). split; [reflexivity|]. split; [reflexivity|]. split.
+        -- intros. cbn [app length shr_n]. change (zlen []) with 0. rewrite Z.add_0_r. reflexivity.
+        -- right. destruct r as [|b1 [|b2 [|b3 [|b4 r']]]]; try (cbn [length] in L4; lia).
+           exists b, b1, b2, b3, b4, r'. auto.
+      * destruct IH as (pre & s' & E & Lp & R & T).
+        exists (b :: pre), s'. split; [|split; [|split]].
+        -- rewrite E. reflexivity.
+        -- cbn [length]. rewrite Lp. reflexivity.
+        -- intros pos mask. rewrite run_unfold by exact L4. rewrite OP.
+           rewrite R. cbn [app length]. rewrite shr_n_S. rewrite zlen_cons.
+           replace (pos + 1 + zlen pre) with (pos + (1 + zlen pre)) by lia. reflexivity.
+        -- exact T.
+    + cbn [andb]. exists [], (b :: r). split; [reflexivity|]. split; [reflexivity|]. split.
+      * intros. cbn [app length shr_n]. change (zlen []) with 0. rewrite Z.add_0_r. reflexivity.
+      * left. cbn [length]. lia.
+Qed.
+
+Lemma splice_window (done : bytes) b b1 b2 b3 b4 c1 c2 c3 c4 (r' : bytes) :
+  splice (zlen done + 1) [c1; c2; c3; c4] (done ++ b :: b1 :: b2 :: b3 :: b4 :: r') =
+  (done ++ [b; c1; c2; c3; c4]) ++ r'.
+Proof.
+  unfold splice.
+  replace (zlen done + 1) with (zlen (done ++ [b])) by (rewrite zlen_app; reflexivity).
+  replace (done ++ b :: b1 :: b2 :: b3 :: b4 :: r') with ((done ++ [b]) ++ b1 :: b2 :: b3 :: b4 :: r')
+    by (rewrite <- app_assoc; reflexivity).
+  rewrite zfirstn_app_exact.
+  replace (zlen (done ++ [b]) + zlen [c1; c2; c3; c4])
+    with (zlen ((done ++ [b]) ++ [b1; b2; b3; b4])).
+  2:{ rewrite !zlen_app. reflexivity. }
+  replace ((done ++ [b]) ++ b1 :: b2 :: b3 :: b4 :: r')
+    with (((done ++ [b]) ++ [b1; b2; b3; b4]) ++ r').
+  2:{ rewrite <- !app_assoc. reflexivity. }
+  rewrite zskipn_app_exact. rewrite <- !app_assoc. reflexivity.
+Qed.
+
+Lemma prev_test_spec (done : bytes) b b1 b2 b3 b4 r' mask : 0 <= mask <= 7 ->
+  prev_test (done ++ b :: b1 :: b2 :: b3 :: b4 :: r') (zlen done) mask = Ok (skip_cond mask b1 b2 b3).
+Proof.
+  intros Hm. unfold prev_test.
+  set (s := b :: b1 :: b2 :: b3 :: b4 :: r').
+  assert (I1 : index (zlen done + 0 + 1) (done ++ s) = Some b1).
+  { replace (zlen done + 0 + 1) with (zlen done + Z.of_nat 1) by lia.
+    rewrite index_app by (unfold s; cbn [length]; lia). reflexivity. }
+  assert (I2 : index (zlen done + 1 + 1) (done ++ s) = Some b2).
+  { replace (zlen done + 1 + 1) with (zlen done + Z.of_nat 2) by lia.
+    rewrite index_app by (unfold s; cbn [length]; lia). reflexivity. }
+  assert (I3 : index (zlen done + 2 + 1) (done ++ s) = Some b3).
+  { replace (zlen done + 2 + 1) with (zlen done + Z.of_nat 3) by lia.
+    rewrite index_app by (unfold s; cbn [length]; lia). reflexivity. }
+  destruct (mask_cases mask Hm) as [-> | [-> | [-> | [-> | [-> | [-> | [-> | ->]]]]]]];
+    try reflexivity.
+  - change (1 =? 0) with false. change ((4 <? 1) || (1 =? 3)) with false. cbv iota.
+    change (Z.shiftr 1 1) with 0. rewrite I1. reflexivity.
+  - change (2 =? 0) with false. change ((4 <? 2) || (2 =? 3)) with false. cbv iota.
+    change (Z.shiftr 2 1) with 1. rewrite I2. reflexivity.
+  - change (4 =? 0) with false. change ((4 <? 4) || (4 =? 3)) with false. cbv iota.
+    change (Z.shiftr 4 1) with 2. rewrite I3. reflexivity.
+Qed.
+
+Lemma loop_run enc ip sfuel : forall fuel s done size mask,
+  (length s < fuel)%nat -> (length s < sfuel)%nat -> 0 <= mask <= 7 ->
+  size = zlen (done ++ s) - 4 ->
+  exists st ret,
+    loop fuel sfuel enc ip (done ++ s) size (zlen done) mask =
+    Ok (done ++ run enc ip (zlen done) mask s, st, ret).
+Proof.
+  induction fuel as [|f IH]; intros s done size mask Hf Hsf Hm Hs; [lia|].
+  cbn [loop].
+  rewrite (scan_nskip s done sfuel size Hsf Hs). cbn [bind].
+  destruct (nskip_split enc ip s) as (pre & s' & E & Lp & R & T).
+  rewrite R. rewrite <- Lp.
+  set (d := length pre) in *.
+  replace (zlen done + Z.of_nat d - zlen done) with (Z.of_nat d) by lia.
+  assert (Ep : zlen done + Z.of_nat d = zlen (done ++ pre)) by (rewrite zlen_app; reflexivity).
+  pose proof (shr_n_spec d mask Hm) as Hsh.
+  pose proof (shr_n_range d mask Hm) as Hmr.
+  assert (Ls : length s = (d + length s')%nat) by (rewrite E, app_length; reflexivity).
+  assert (Hs' : size = zlen (done ++ pre) + zlen s' - 4).
+  { rewrite Hs, E, !zlen_app. lia. }
+  destruct T as [T | (b & b1 & b2 & b3 & b4 & r' & Es' & OP)].
+  - (* too short for another opcode: return *)
+    replace (size <=? zlen done + Z.of_nat d) with true by (unfold zlen in *; lia).
+    rewrite run_short by exact T. rewrite <- E. eexists _, _. reflexivity.
+  - assert (L5 : zlen s' = 5 + zlen r') by (rewrite Es'; unfold zlen; cbn [length]; lia).
+    pose proof (zlen_nonneg r') as Hr0.
+    replace (size <=? zlen done + Z.of_nat d) with false by lia.
+    rewrite <- Hsh.
+    set (m' := shr_n d mask) in *.
+    set (dn := done ++ pre) in *.
+    assert (Ed : done ++ s = dn ++ s') by (unfold dn; rewrite E, app_assoc; reflexivity).
+    assert (Ep' : zlen done + zlen pre = zlen dn) by (unfold dn; rewrite zlen_app; reflexivity).
+    rewrite Ed, Ep, Ep'. rewrite (app_assoc done pre). fold dn. fold (nmask m').
+    assert (PT : (if 2 <? Z.of_nat d then Ok false else prev_test (dn ++ s') (zlen dn) m')
+                 = Ok (skip_cond m' b1 b2 b3)).
+    { destruct (2 <? Z.of_nat d) eqn:D2.
+      - rewrite Hsh. rewrite ?D2. reflexivity.
+      - rewrite Es'. apply prev_test_spec. exact Hmr. }
+    rewrite PT. cbn [bind].
+    assert (I4 : index (zlen dn + 4) (dn ++ s') = Some b4).
+    { replace (zlen dn + 4) with (zlen dn + Z.of_nat 4) by lia.
+      rewrite index_app by (rewrite Es'; cbn [length]; lia). rewrite Es'. reflexivity. }
+    assert (I3 : index (zlen dn + 3) (dn ++ s') = Some b3).
+    { replace (zlen dn + 3) with (zlen dn + Z.of_nat 3) by lia.
+      rewrite index_app by (rewrite Es'; cbn [length]; lia). rewrite Es'. reflexivity. }
+    assert (I2 : index (zlen dn + 2) (dn ++ s') = Some b2).
+    { replace (zlen dn + 2) with (zlen dn + Z.of_nat 2) by lia.
+      rewrite index_app by (rewrite Es'; cbn [length]; lia). rewrite Es'. reflexivity. }
+    assert (I1 : index (zlen dn + 1) (dn ++ s') = Some b1).
+    { replace (zlen dn + 1) with (zlen dn + Z.of_nat 1) by lia.
+      rewrite index_app by (rewrite Es'; cbn [length]; lia). rewrite Es'. reflexivity. }
+    assert (Skip : exists st ret,
+       loop f sfuel enc ip (dn ++ s') size (zlen dn + 1) (nmask m') =
+       Ok (dn ++ b :: run enc ip (zlen dn + 1) (nmask m') (b1 :: b2 :: b3 :: b4 :: r'), st, ret)).
+    { rewrite Es'.
+      replace (dn ++ b :: b1 :: b2 :: b3 :: b4 :: r') with ((dn ++ [b]) ++ b1 :: b2 :: b3 :: b4 :: r')
+        by (rewrite <- app_assoc; reflexivity).
+      replace (zlen dn + 1) with (zlen (dn ++ [b])) by (rewrite zlen_app; reflexivity).
+      destruct (IH (b1 :: b2 :: b3 :: b4 :: r') (dn ++ [b]) size (nmask m')) as (st & ret & EQ).
+      - rewrite Ls, Es' in Hf. cbn [length] in *. lia.
+      - rewrite Ls, Es' in Hsf. cbn [length] in *. lia.
+      - pose proof (nmask_range m' Hmr). lia.
+      - rewrite Hs', Es'. rewrite !zlen_app. unfold zlen. cbn [length]. lia.
+      - exists st, ret. rewrite EQ. rewrite <- !app_assoc. reflexivity. }
+    replace (run enc ip (zlen dn) m' s') with (run enc ip (zlen dn) m' (b :: b1 :: b2 :: b3 :: b4 :: r'))
+      by (rewrite Es'; reflexivity).
+    rewrite run_cons5. rewrite OP.
+    destruct (skip_cond m' b1 b2 b3) eqn:SK.
+    { exact Skip. }
+    rewrite I4. cbn [of_opt bind].
+    destruct (test86 b4) eqn:T4; [|exact Skip].
+    rewrite I3, I2, I1. cbn [of_opt bind].
+    fold (curw ip (zlen dn)).
+    destruct (conv enc (curw ip (zlen dn)) m' b1 b2 b3 b4) as [[[c1 c2] c3] c4] eqn:CE.
+    rewrite Es'. rewrite splice_window.
+    replace (zlen dn + 5) with (zlen (dn ++ [b; c1; c2; c3; c4])) by (rewrite zlen_app; reflexivity).
+    destruct (IH r' (dn ++ [b; c1; c2; c3; c4]) size 0) as (st & ret & EQ).
+    + rewrite Ls, Es' in Hf. cbn [length] in *. lia.
+    + rewrite Ls, Es' in Hsf. cbn [length] in *. lia.
+    + lia.
+    + rewrite Hs', Es'. rewrite !zlen_app. unfold zlen. cbn [length]. lia.
+    + exists st, ret. rewrite EQ. rewrite <- !app_assoc. reflexivity.
+Qed.
+
+Lemma land7_range st : 0 <= Z.land st 7 <= 7.
+Proof.
+  assert (E : Z.land st 7 = st mod 8) by (apply (Z.land_ones st 3); lia).
+  rewrite E. pose proof (Z.mod_pos_bound st 8 ltac:(lia)). lia.
+Qed.
+
+(* x86Convert as a whole: never panics, always finishes, and the buffer ends up as [run] says *)
+Theorem x86_convert_run enc ip st data : exists st' ret,
+  x86_convert enc ip st data = Ok (run enc (u32 (ip + 5)) 0 (Z.land st 7) data, st', ret).
+Proof.
+  unfold x86_convert.
+  destruct (zlen data <? 5) eqn:L5.
+  - rewrite run_short by (unfold zlen in L5; lia). eexists _, _. reflexivity.
+  - destruct (loop_run enc (u32 (ip + 5)) (S (length data)) (S (length data)) data [] (zlen data - 4)
+                (Z.land st 7)) as (st' & ret & E); try (cbn [length]; lia).
+    + apply land7_range.
+    + reflexivity.
+    + exists st', ret. exact E.
+Qed.
+
+(* ---- consequences for the model of x86Convert ---- *)
+
+Lemma run_zlen enc ip pos mask s : zlen (run enc ip pos mask s) = zlen s.
+Proof. unfold zlen. rewrite run_len. reflexivity. Qed.
+
+Theorem x86_convert_total enc ip st data : exists d st' ret,
+  x86_convert enc ip st data = Ok (d, st', ret) /\ zlen d = zlen data.
+Proof.
+  destruct (x86_convert_run enc ip st data) as (st' & ret & E).
+  eexists _, st', ret. split; [exact E|]. apply run_zlen.
+Qed.
+
+Theorem x86_convert_roundtrip ip st d e s1 r1 : bytes_ok d = true ->
+  x86_convert true ip st d = Ok (e, s1, r1) ->
+  exists s2 r2, x86_convert false ip st e = Ok (d, s2, r2).
+Proof.
+  intros Hok E.
+  destruct (x86_convert_run true ip st d) as (s1' & r1' & E1). rewrite E1 in E.
+  injection E as <- _ _.
+  destruct (x86_convert_run false ip st (run true (u32 (ip + 5)) 0 (Z.land st 7) d)) as (s2 & r2 & E2).
+  exists s2, r2. rewrite E2. rewrite run_roundtrip by (auto using land7_range). reflexivity.
+Qed.
+
+Lemma x86_run enc d : x86 enc d = run enc 5 0 0 d.
+Proof.
+  unfold x86. destruct (x86_convert_run enc 0 0 d) as (st' & ret & E). rewrite E. reflexivity.
+Qed.
+
+(* decode is the exact inverse of encode, on every input *)
+Theorem x86_roundtrip d : bytes_ok d = true -> x86 false (x86 true d) = d.
+Proof. intros H. rewrite !x86_run. apply run_roundtrip; [lia|exact H]. Qed.
+
+Theorem x86_length enc d : zlen (x86 enc d) = zlen d.
+Proof. rewrite x86_run. apply run_zlen. Qed.
+
+Theorem x86_short enc d : zlen d < 5 -> x86 enc d = d.
+Proof. intros H. rewrite x86_run. apply run_short. unfold zlen in H. lia. Qed.
+
+(* the filter maps byte strings to byte strings *)
+Lemma run_bytes_ok_n enc ip : forall n s, (length s <= n)%nat -> forall pos mask,
+  0 <= mask <= 7 -> bytes_ok s = true -> bytes_ok (run enc ip pos mask s) = true.
+Proof.
+  induction n as [|n IH]; intros s Hn pos mask Hm Hok.
+  - destruct s; [reflexivity | cbn [length] in Hn; lia].
+  - destruct s as [|b [|b1 [|b2 [|b3 [|b4 r']]]]]; try exact Hok.
+    ok5 Hok.
+    assert (Hr : bytes_ok (b1 :: b2 :: b3 :: b4 :: r') = true).
+    { apply bytes_ok_cons_inv in Hok as [_ Hok]. exact Hok. }
+    assert (Ln : (length (b1 :: b2 :: b3 :: b4 :: r') <= n)%nat) by (cbn [length] in *; lia).
+    assert (Ln' : (length r' <= n)%nat) by (cbn [length] in *; lia).
+    pose proof (nmask_range mask Hm) as Hnm.
+    pose proof (shr1_range mask Hm) as Hsm.
+    assert (Bb : byte_ok b = true) by (apply byte_ok_iff; exact Hb).
+    rewrite run_cons5.
+    destruct (is_branch b).
+    2:{ rewrite bytes_ok_cons, Bb. apply IH; auto. }
+    destruct (skip_cond mask b1 b2 b3) eqn:SK.
+    { rewrite bytes_ok_cons, Bb. apply IH; auto; lia. }
+    destruct (test86 b4) eqn:T4.
+    2:{ rewrite bytes_ok_cons, Bb. apply IH; auto; lia. }
+    destruct (skip_cond_false_inv mask b1 b2 b3 Hm SK) as [Hmc _].
+    destruct (conv enc (curw ip pos) mask b1 b2 b3 b4) as [[[c1 c2] c3] c4] eqn:E.
+    destruct (conv_bytes _ _ _ _ _ _ _ _ _ _ _ Hb1 Hb2 Hb3 Hb4 Hmc E) as (C1 & C2 & C3 & C4 & _).
+    rewrite !bytes_ok_cons, Bb.
+    rewrite (proj2 (byte_ok_iff c1) C1), (proj2 (byte_ok_iff c2) C2),
+            (proj2 (byte_ok_iff c3) C3), (proj2 (byte_ok_iff c4) C4).
+    apply IH; auto; lia.
+Qed.
+
+Theorem x86_bytes_ok enc d : bytes_ok d = true -> bytes_ok (x86 enc d) = true.
+Proof. intros H. rewrite x86_run. apply (run_bytes_ok_n enc 5 (length d)); auto; lia. Qed.
